@@ -300,13 +300,27 @@ pub fn run(args: &Args) {
     }
     // random configurations (symlinks, directories, flags ...)
     for i in 0..args.num("n", 40) {
-        let cfg = gen_::rand_cfg(&mut rng, 5, 5000);
+        let mut cfg = gen_::rand_cfg(&mut rng, 5, 5000);
         let mut paths: Vec<Vec<u8>> = cfg.files.iter().map(|f| gen_::installed_path(&f.dest).into_bytes()).collect();
         paths.sort();
+        // every fourth configuration hands one destination over twice, from two different sources: whichever the builder
+        // keeps (or if it refuses), what it records for the file is true of the content it archives (no claim on the
+        // sequence of files then)
+        let mut twice = false;
+        if i % 4 == 3 {
+            if let Some(k) = cfg.files.iter().position(|f| f.mode.map_or(true, |m| m & 0o170000 == 0o100000) && f.src_slot.is_none()) {
+                let mut again = cfg.files[k].clone();
+                again.seed = rng.next();
+                again.len = cfg.files[k].len + 1 + rng.below(40) as usize;
+                again.mtime = 1_234_567_890;
+                cfg.files.push(again);
+                twice = true;
+            }
+        }
         if let Ok(Ok(p)) = guarded(|| gen_::build(&cfg, &wd)) {
             let mut bytes = vec![];
             p.write(&mut Plain(&mut bytes)).unwrap();
-            t.emit(files_event(&bytes, &format!("random:{i}"), true, Some(paths)));
+            t.emit(files_event(&bytes, &format!("random:{i}{}", if twice { ":twice" } else { "" }), true, if twice { None } else { Some(paths) }));
         }
     }
     // the large-file (stripped cpio) format, reached through the verification hook
